@@ -137,7 +137,10 @@ def hist_prop(idx, expl, assume):
         rule=HIST_RULE,
         explanation=expl + " The model of Plugin.outcome / Plugin.reports (coq/theories/Outcome.v) is run by Coq on every round of generated "
                     "histories from the implementation's own previous outcome and compared with the decoded Outcome result and the Report "
-                    "structs handed to the report codecs; the property predicate is evaluated on the implementation's outcomes/reports.",
+                    "structs handed to the report codecs; on small rounds the wire-to-wire model (observation bytes and previous outcome bytes in, "
+                    "outcome bytes out) must reproduce the bytes Outcome returned exactly, and BytesHistory proves that byte-level histories "
+                    "abstract to the struct-level histories the theorems are stated over (C03_wire_history_abstracts, *_on_the_wire); the property "
+                    "predicate is evaluated on the implementation's outcomes/reports.",
         assumptions=[assume, 'libocr delivers only observations that passed ValidateObservation, at most one per oracle'],
         level_text="Coq theorems about the model of the LLO outcome/report functions over all states, observation lists and histories; model tied "
                    "to llo.Plugin.Outcome/Reports by a per-round differential check evaluated inside Coq.",
@@ -167,7 +170,9 @@ PROPS['C06'] = hist_prop(5,
     "Theorems C06_* prove for any f, previous outcome and observation list: every channel addition/replacement/removal has more than "
     "f votes for exactly that change among the accepted observations; retirement needs more than f retire votes; promotion needs a "
     "verified attestation carried by an observation (and a configured predecessor); with at most f faulty observers and correct "
-    "ones not voting nothing changes; a retired instance ignores all votes.",
+    "ones not voting nothing changes; a retired instance ignores all votes. End to end (C06_def_change_traces_to_correct_cache, "
+    "C06_stage_change_traces_back): with at most f senders of arbitrary bytes a change of the channel set traces back to some correct node's "
+    "definitions cache, a retirement to a correct node's ShouldRetire cache, a promotion to a verified attestation.",
     "MakeChannelHash (SHA-256) is collision-free on the definitions voted in a round (votes are grouped by (id, definition))")
 PROPS['C18'] = hist_prop(7,
     "Theorems C18_* prove for one outcome step from any state: a timestamped aggregate of a still-referenced (stream, aggregator) "
